@@ -101,7 +101,7 @@ def check(run):
                 lines.append((cid, cmd))
                 meta[cid] = (db, exp, ["end ok", hl.LOCKS], what, sql)
         conn.close()
-    res, impl, model = ops.run_cmds("c03-eq", lines, timeout=1500)
+    res, impl, model = ops.run_cmds("c03-eq", lines, timeout=1500, shards=8)
     nmatch = 0
     for cid, cmd in lines:
         if cid not in meta:
